@@ -593,6 +593,21 @@ def gen_units(ctx, n, maxnest):
     return out, rejected
 
 
+def form_sweep():
+    """every expression form of the edge pool, deterministically, in every position that matters: as a statement, as a right-hand side,
+    inside a loop, as a condition (so that no form depends on being drawn by the random units)"""
+    out = []
+    head = "void f(int x, int y, int z, int w, int n)\n{\n"
+    for k, e in enumerate(EXPR_FORMS):
+        src = head + f"  x = {e};\n  {e};\n  while (n > 0) {{ w = {e}; {e}; }}\n  if ({e}) {{ x = y + z; }}\n}}\n"
+        try:
+            quick_parse(src)
+        except Exception:
+            continue
+        out.append((f"form{k}", src))
+    return out
+
+
 def repo_files():
     out = []
     for pat in ("c_files/**/*.c", "tests/examples/**/*.c", "tests/examples/*.c"):
@@ -733,7 +748,8 @@ def run(ctx):
     corpus += [("stream:" + l, s) for l, s in streams.CORPUS]
     files = repo_files()
     gen, rejected = gen_units(ctx, ctx.n(700, 5000), maxnest)
-    units = corpus + files + gen
+    sweep = form_sweep()
+    units = corpus + files + sweep + gen
     results = vlib.pool_map(_worker, units, procs=16, chunksize=4)
 
     failing, by_sig = [], {}
